@@ -257,6 +257,20 @@ func oracleC11(c *SCase) *ev.Failure {
 			return nil
 		})
 	}
+	// the EMPTY message: csproto.Marshal / the codec refuse it exactly when the owning runtime does (required fields)
+	step("MarshalEmpty", func() *ev.Failure {
+		e1, _, _ := c.newOf(nil)
+		e2, _, _ := c.newOf(nil)
+		e3, _, _ := c.newOf(nil)
+		_, rtErr := rt.marshal(e3)
+		if _, err := csproto.Marshal(e1); (err == nil) != (rtErr == nil) {
+			return ev.Failf(shimSig("marshal-of-empty-message-differs-from-runtime", c), "csproto.Marshal(empty message): %v; %s: %v", err, rt.name, rtErr)
+		}
+		if _, err := (csproto.GrpcCodec{}).Marshal(e2); (err == nil) != (rtErr == nil) {
+			return ev.Failf(shimSig("marshal-of-empty-message-differs-from-runtime", c), "GrpcCodec.Marshal(empty message): %v; %s: %v", err, rt.name, rtErr)
+		}
+		return nil
+	})
 	// gRPC codec == package functions
 	step("GrpcCodec", func() *ev.Failure {
 		codec := csproto.GrpcCodec{}
